@@ -301,7 +301,12 @@ func (e *Exec) processLoop(outer *region, li *loopInfo, pre *State) {
 		spec = fr.con.Loops[li.n]
 	}
 	exits := func(to *ssa.BasicBlock, es edgeState) {
-		// record live-out registers
+		if spec != nil && e.mute == 0 {
+			for k, cl := range spec.ExitAssume {
+				es.st.Assume(e.evalInvNamed(fr, spec, li, fmt.Sprintf("x%d", k), es.st))
+				e.W.Note(fmt.Sprintf("assumed loop summary in %s loop %d: %s", fr.con.Display(), li.n, cl.Expr))
+			}
+		}
 		e.deliver(outer, es.from, to, es.st)
 	}
 	unroll := 0
@@ -428,6 +433,7 @@ func (e *Exec) saveLiveOuts(fr *frame, li *loopInfo, st *State) {
 func (e *Exec) discover(fr *frame, li *loopInfo, pre *State) *modset {
 	ms := newModset()
 	ms.minSeq = e.allocSeq
+	ms.startID = smt.NextID()
 	saveDisc, saveObls := e.disc, len(e.Obls)
 	saveCounters := map[string]int{}
 	for k, v := range e.counters {
@@ -447,6 +453,15 @@ func (e *Exec) discover(fr *frame, li *loopInfo, pre *State) *modset {
 		if saveDisc != nil {
 			for k := range ms.heaps {
 				saveDisc.heaps[k] = true
+			}
+			for k, as := range ms.addrs {
+				for _, a := range as {
+					if a.ID < saveDisc.startID && !saveDisc.heaps[k] {
+						saveDisc.addrs[k] = append(saveDisc.addrs[k], a)
+					} else {
+						saveDisc.heaps[k] = true
+					}
+				}
 			}
 			for k := range ms.cells {
 				saveDisc.cells[k] = true
@@ -496,6 +511,22 @@ func (e *Exec) havocMods(st *State, ms *modset) {
 		for _, k := range ks {
 			st.Heaps[k] = e.fresh("L|"+k, e.heapSort[k])
 		}
+		// heaps written only at loop-invariant addresses: forget just those locations
+		var aks []string
+		for k := range ms.addrs {
+			if !ms.heaps[k] {
+				aks = append(aks, k)
+			}
+		}
+		sort.Strings(aks)
+		for _, k := range aks {
+			hs := e.heapSort[k]
+			h := e.heap(st, k, hs)
+			for _, a := range ms.addrs[k] {
+				h = smt.Store(h, a, e.fresh("L@"+k, hs.Elem))
+			}
+			st.Heaps[k] = h
+		}
 	}
 	var cs []*ssa.Alloc
 	for c := range ms.cells {
@@ -534,8 +565,12 @@ func (e *Exec) havocMods(st *State, ms *modset) {
 
 // evalInv evaluates invariant k of the loop in state st (spec mode, no obligations).
 func (e *Exec) evalInv(fr *frame, spec *LoopSpec, li *loopInfo, k int, st *State) *smt.Term {
+	return e.evalInvNamed(fr, spec, li, fmt.Sprintf("%d", k), st)
+}
+
+func (e *Exec) evalInvNamed(fr *frame, spec *LoopSpec, li *loopInfo, k string, st *State) *smt.Term {
 	con := fr.con
-	name := fmt.Sprintf("verif_I_%d_%d_%d", con.ID, spec.N, k)
+	name := fmt.Sprintf("verif_I_%d_%d_%s", con.ID, spec.N, k)
 	pkg := e.W.Pkgs[con.Pkg]
 	if pkg == nil {
 		unsupported("package %s not loaded", con.Pkg)
